@@ -67,13 +67,78 @@ SETUP_STREAMS = method({
     'raises': {},
 })
 
+def _set_put(st, g, z, val):
+    from pyvc.vals import HDict
+    ref = st.ghost[g]
+    h = st.heap[ref.rid]
+    st.heap[ref.rid] = HDict(h.kt, h.vt, z3.Store(h.mem, z, z3.BoolVal(val) if isinstance(val, bool) else val), h.vals)
+
+
+def _set_has(st, g, z):
+    return z3.Select(st.heap[st.ghost[g].rid].mem, z)
+
+
+def getvalue_dirty(which):
+    """getvalue() of a capture buffer: whatever the test wrote is in it -- the buffer is in use (dirty, not rewound)"""
+    def h(E, st, node, args, kws, k):
+        inner = getvalue(which)
+
+        def after(s2, v):
+            if 'dirty' in s2.ghost:
+                _set_put(s2, 'dirty', s2.ghost[which].z, True)
+                _set_put(s2, 'rewound', s2.ghost[which].z, False)
+            return k(s2, v)
+        return inner(E, st, node, args, kws, after)
+    h.__name__ = 'sys.%s.getvalue(): AttributeError unless a capture buffer; marks it as written to (ghost G.dirty)' % which
+    h.modifies = ['G.dirty', 'G.rewound']
+    return h
+
+
+def buf_seek(field):
+    def h(E, st, node, args, kws, k):
+        me = st.lookup('self')
+        b = st.heap[me.rid].fields[field]
+        z = b.inner.z if isinstance(b, VOpt) else b.z
+        if E.const_int(args[0]) != 0:
+            raise Exception("seek to a non-zero offset is not modelled")
+        _set_put(st, 'rewound', z, True)
+        return k(st, NONE)
+    h.__name__ = 'self.%s.seek(0): position := 0 (ghost G.rewound)' % field
+    h.modifies = ['G.rewound']
+    return h
+
+
+def buf_truncate(field):
+    def h(E, st, node, args, kws, k):
+        me = st.lookup('self')
+        b = st.heap[me.rid].fields[field]
+        z = b.inner.z if isinstance(b, VOpt) else b.z
+        if E.const_int(args[0]) != 0:
+            raise Exception("truncate to a non-zero size is not modelled")
+        # io semantics: truncate(0) empties the buffer but leaves the position where it was; the buffer is clean (empty
+        # and positioned at 0, so the next capture starts with exactly what is written) only if it was rewound before
+        _set_put(st, 'dirty', z, z3.And(_set_has(st, 'dirty', z), z3.Not(_set_has(st, 'rewound', z))))
+        return k(st, NONE)
+    h.__name__ = 'self.%s.truncate(0): size := 0, position unchanged; clean iff rewound before (ghost G.dirty)' % field
+    h.modifies = ['G.dirty']
+    return h
+
+
 RESTORE_STREAMS = method({
     'property': ['C04', 'C13', 'C18'], 'params': {},
     'returns': 'Tuple[Opt[Str],Opt[Str]]',
     'requires': [],                  # callable in every state: a second result event of one test finds the originals installed
-    'modifies': ['G.stdout', 'G.stderr', 'G.cap_out', 'G.cap_err'],
+    'modifies': ['G.stdout', 'G.stderr', 'G.cap_out', 'G.cap_err', 'G.dirty', 'G.rewound'],
+    'ghost': dict(GHOST, dirty='Set[Stream]', rewound='Set[Stream]'),
     'ghost_exit': {'cap_out': '_ret[0]', 'cap_err': '_ret[1]'},
+    'rules': {'sys.stdout.getvalue': getvalue_dirty('stdout'), 'sys.stderr.getvalue': getvalue_dirty('stderr'),
+              'self._stdout_buffer.seek': buf_seek('_stdout_buffer'), 'self._stdout_buffer.truncate': buf_truncate('_stdout_buffer'),
+              'self._stderr_buffer.seek': buf_seek('_stderr_buffer'), 'self._stderr_buffer.truncate': buf_truncate('_stderr_buffer')},
     'ensures': ["implies(old(" + SOK + "), " + ORIG + ")",
+                # C13: a capture buffer that is taken out of service is left empty AND rewound, so that the next test's
+                # captured text is exactly what that test writes (io: truncate() alone keeps the old position)
+                "implies(G.stdout != old(G.stdout), old(G.stdout) not in G.dirty)",
+                "implies(G.stderr != old(G.stderr), old(G.stderr) not in G.dirty)",
                 "implies(not " + B + ", G.stdout == old(G.stdout) and G.stderr == old(G.stderr))",
                 "result[0] == G.cap_out and result[1] == G.cap_err",
                 "self._stdout_buffer == old(self._stdout_buffer) and self._stderr_buffer == old(self._stderr_buffer)"],
